@@ -70,9 +70,20 @@ func gen(t *rapid.T) Case {
 	if rep.Thorough() {
 		n = rapid.IntRange(3, 30).Draw(t, "nOps2")
 	}
+	// a quarter of the sequences stay with one DAG that first gets an earlier run
+	// (finished, failed or crashed) and then a live one: the states in which the
+	// most actions have to be refused
+	focus := rapid.IntRange(0, 3).Draw(t, "focus") == 0
+	fd := rapid.IntRange(0, c.NDags-1).Draw(t, "focusDag")
+	if focus {
+		c.Ops = append(c.Ops, Op{Kind: rapid.SampledFrom([]string{"run", "fail", "crash"}).Draw(t, "focusPrior"), Dag: fd}, Op{Kind: "bg", Dag: fd})
+	}
 	for i := 0; i < n; i++ {
 		o := Op{Dag: rapid.IntRange(0, c.NDags-1).Draw(t, "dag")}
 		o.Kind = rapid.SampledFrom([]string{"run", "fail", "bg", "bg", "crash", "api", "api", "api", "api", "api", "api", "api"}).Draw(t, "kind")
+		if focus && rapid.IntRange(0, 3).Draw(t, "stay") > 0 {
+			o.Dag, o.Kind = fd, "api"
+		}
 		if o.Kind == "api" {
 			o.Action = rapid.SampledFrom([]string{"start", "start", "stop", "stop", "stop", "retry", "suspend", "mark-success", "mark-success", "mark-success", "mark-failed", "mark-failed", "mark-failed", "save", "rename", "bogus", "none", "malformed"}).Draw(t, "action")
 			o.ReqSel = rapid.IntRange(0, 5).Draw(t, "reqSel")
